@@ -212,9 +212,30 @@ func (w *Wrapper) Set(key string, val any) {
 func (w *Wrapper) Copy() Resource {
 	nw := Wrap(reflect.New(w.val.Type()).Interface())
 
+	// ID
+	nw.SetID(w.GetID())
+
 	// Attributes
 	for _, attr := range w.Attrs() {
-		nw.Set(attr.Name, w.Get(attr.Name))
+		val := w.Get(attr.Name)
+
+		// Slices are copied so that they are not shared with the copy.
+		switch b := val.(type) {
+		case []byte:
+			if b != nil {
+				nb := make([]byte, len(b))
+				copy(nb, b)
+				val = nb
+			}
+		case *[]byte:
+			if b != nil {
+				nb := make([]byte, len(*b))
+				copy(nb, *b)
+				val = &nb
+			}
+		}
+
+		nw.Set(attr.Name, val)
 	}
 
 	// Relationships
@@ -222,7 +243,14 @@ func (w *Wrapper) Copy() Resource {
 		if rel.ToOne {
 			nw.Set(rel.FromName, w.Get(rel.FromName).(string))
 		} else {
-			nw.Set(rel.FromName, w.Get(rel.FromName).([]string))
+			ids := w.Get(rel.FromName).([]string)
+			if ids != nil {
+				nids := make([]string, len(ids))
+				copy(nids, ids)
+				ids = nids
+			}
+
+			nw.Set(rel.FromName, ids)
 		}
 	}
 
